@@ -11,7 +11,12 @@ pub struct M<P> {
 
 /// smallest index of the next UTF-8 sequence after `i` (len+1 past the end)
 pub fn next_char(text: &str, i: usize) -> usize {
-    match text[i.min(text.len())..].chars().next() {
+    if i >= text.len() || !text.is_char_boundary(i) {
+        // (an offset inside a character can only come from an implementation that already
+        // violates C05; the model must not panic on it)
+        return i + 1;
+    }
+    match text[i..].chars().next() {
         Some(c) if i < text.len() => i + c.len_utf8(),
         _ => i + 1,
     }
